@@ -408,6 +408,18 @@ func (k *K) opsInFlight() int {
 
 func (o *Op) abandoned() bool { return false }
 
+func (k *K) opsInFlightOn(node int) int {
+	k.W.mu.Lock()
+	defer k.W.mu.Unlock()
+	n := 0
+	for _, o := range k.Ops {
+		if !o.Done && o.Node == node {
+			n++
+		}
+	}
+	return n
+}
+
 func (k *K) IsDone(o *Op) bool {
 	k.W.mu.Lock()
 	defer k.W.mu.Unlock()
